@@ -75,6 +75,32 @@ pub struct Error<E1, E2> {
     pub location: Range<usize>,
 }
 
+/// Parses a variable value as an integer constant.
+///
+/// The value is an optional sign followed by a constant in the same notation as
+/// in an expression: hexadecimal with a leading `0x` or `0X`, octal with a
+/// leading `0`, or decimal.
+fn parse_integer(value: &str) -> Option<i64> {
+    let (sign, magnitude) = match value.as_bytes().first() {
+        Some(b'-') => ("-", &value[1..]),
+        Some(b'+') => ("", &value[1..]),
+        _ => ("", value),
+    };
+    let (digits, radix) = if let Some(digits) = magnitude.strip_prefix("0X") {
+        (digits, 0x10)
+    } else if let Some(digits) = magnitude.strip_prefix("0x") {
+        (digits, 0x10)
+    } else if magnitude.starts_with('0') {
+        (magnitude, 0o10)
+    } else {
+        (magnitude, 10)
+    };
+    if !digits.starts_with(|c: char| c.is_ascii_alphanumeric()) {
+        return None;
+    }
+    i64::from_str_radix(&format!("{sign}{digits}"), radix).ok()
+}
+
 /// Expands a variable to its value.
 fn expand_variable<E: Env>(
     name: &str,
@@ -83,10 +109,10 @@ fn expand_variable<E: Env>(
 ) -> Result<Value, Error<E::GetVariableError, E::AssignVariableError>> {
     match env.get_variable(name) {
         Ok(None) => Ok(Value::Integer(0)),
-        // TODO Parse non-decimal integer and float
-        Ok(Some(value)) => match value.parse() {
-            Ok(number) => Ok(Value::Integer(number)),
-            Err(_) => Err(Error {
+        // TODO Parse float
+        Ok(Some(value)) => match parse_integer(value) {
+            Some(number) => Ok(Value::Integer(number)),
+            None => Err(Error {
                 cause: EvalError::InvalidVariableValue(value.to_string()),
                 location: location.clone(),
             }),
